@@ -36,6 +36,10 @@ func main() {
 		fmt.Fprintf(os.Stderr, "usage: verifharness <component> gen|exec ...; components: %v\n", names)
 		os.Exit(2)
 	}
+	if os.Args[1] == "gcs-worker" {
+		gcsWorkerMain()
+		return
+	}
 	comp, ok := components[os.Args[1]]
 	if !ok {
 		fmt.Fprintf(os.Stderr, "unknown component %q\n", os.Args[1])
